@@ -250,6 +250,9 @@ def case_st(draw, tier, pair=None):
         case["shift"] = shift
         eff = shift if shift is not None else (1 if src == "ojn" else 0)
         case["layout_dst"] = draw(st.sampled_from([n for n in ["BME", "BME", "BME", "PMS_BME", "BMS"] if LAYOUT_COLS[n] >= kmax + eff]))
+    if src in MS_FORMATS:
+        # order of the timing-point / SV / note entries in the source file (the formats do not prescribe one)
+        case["file_order"] = draw(st.sampled_from([None, None, None, "reverse", "rotate"]))
     case["title"] = draw(st.sampled_from(WORDS))
     case["artist"] = draw(st.sampled_from(WORDS))
     case["via_file"] = draw(st.integers(0, 3)) == 0
@@ -315,6 +318,14 @@ def denoted(case):
     return out
 
 
+def _file_order(case, rows):
+    how = case.get("file_order")
+    rows = list(rows)
+    if not how or len(rows) < 2:
+        return rows
+    return rows[::-1] if how == "reverse" else rows[len(rows) // 2:] + rows[: len(rows) // 2]
+
+
 def make_source(case):
     """-> (payload for read(), bytes for a file, list of reference models (one per chart))"""
     src = case["src"]
@@ -323,10 +334,10 @@ def make_source(case):
         d = den[0]
         chart = GO.minimal_chart(
             d["keys"],
-            hits=[(int(t), c) for c, t in d["hits"]],
-            holds=[(int(t), c, int(ln)) for c, t, ln in d["holds"]],
-            bpms=[(t, v) for t, v in d["tempo"]],
-            svs=[(int(t), v) for t, v in d["svs"]],
+            hits=_file_order(case, [(int(t), c) for c, t in d["hits"]]),
+            holds=_file_order(case, [(int(t), c, int(ln)) for c, t, ln in d["holds"]]),
+            bpms=_file_order(case, [(t, v) for t, v in d["tempo"]]),
+            svs=_file_order(case, [(int(t), v) for t, v in d["svs"]]),
             meta=dict(title=case["title"], artist=case["artist"], title_unicode=case["title"], artist_unicode=case["artist"]),
         )
         lines = GO.render(chart)
@@ -343,10 +354,10 @@ def make_source(case):
         d = den[0]
         chart = dict(
             keys=d["keys"],
-            hits=[dict(offset=int(t), column=c, keysounds=[]) for c, t in d["hits"]],
-            holds=[dict(offset=int(t), column=c, length=int(ln), keysounds=[]) for c, t, ln in d["holds"]],
-            bpms=[dict(offset=int(t), bpm=v) for t, v in d["tempo"]],
-            svs=[dict(offset=int(t), multiplier=v) for t, v in d["svs"]],
+            hits=_file_order(case, [dict(offset=int(t), column=c, keysounds=[]) for c, t in d["hits"]]),
+            holds=_file_order(case, [dict(offset=int(t), column=c, length=int(ln), keysounds=[]) for c, t, ln in d["holds"]]),
+            bpms=_file_order(case, [dict(offset=int(t), bpm=v) for t, v in d["tempo"]]),
+            svs=_file_order(case, [dict(offset=int(t), multiplier=v) for t, v in d["svs"]]),
             meta=dict(Title=case["title"], Artist=case["artist"], Creator="c", DifficultyName="d", AudioFile="a.mp3"),
         )
         text = GQ.render(chart)
@@ -772,6 +783,7 @@ def _labels(ctx, case, models):
         ctx.label("tempo-points=%s" % min(len(m["tempo"]), 4))
         ctx.label("svs", bool(m["svs"]))
         ctx.label("sv-before-first-tempo-point", any(fr(b) < 0 for b, _ in case.get("svs", [])))
+        ctx.label("source-entries-out-of-time-order", bool(case.get("file_order")) and len(m["tempo"]) >= 2)
         ctx.label("first-tempo!=0", m["tempo"][0][0] != 0)
         ctx.label("note-at-tempo-change", any(o[1] == t for o in m["hits"] + m["holds"] for t, _ in m["tempo"][1:]))
         ctx.label("hold-over-tempo-change", any(o[1] < t < o[1] + o[2] for o in m["holds"] for t, _ in m["tempo"][1:]))
